@@ -1,13 +1,22 @@
-/-  T1 obligation: the opcode tables and interpreter limits regenerated from /repo equal the
-    reference tables (every entry of OPCODE_NAMES over 0..255, OPCODES_BY_NAME, DISABLED_OPCODES,
-    the unary/binary numeric opcode sets, and the five limits).  -/
+/-  T1 obligation: the opcode VALUES and interpreter limits regenerated from /repo agree with the
+    reference tables: every opcode constant the reference knows has the reference's value in the working
+    tree (`OP_*` module constants / OPCODES_BY_NAME — the working tree may define more names), DISABLED_OPCODES,
+    the unary / binary numeric opcode sets, and the five limits.
+    Display NAMES (OPCODE_NAMES: what `repr` and error messages print) are NOT an obligation (audit 3, A9):
+    no property names them; `Generated.opcodeTables.names` is listed in the generated file as evidence only.  -/
 import BtcVerif.Generated.Opcodes
 
 namespace BtcVerif.Tables.Opcodes
 open BtcVerif
 
-theorem names_eq : Generated.opcodeTables.names = Spec.opcodeNames := by decide
-theorem byName_eq : Generated.opcodeTables.byName = Spec.opcodesByName := by decide
+/-- the value the working tree gives to each opcode constant of the reference, in the reference's order
+    (`none` = the constant is missing) — the working tree's table may contain more names -/
+def valuesOfReferenceNames : List (String × Option Nat) :=
+  Spec.opcodesByName.map fun p => (p.1, (Generated.opcodeTables.byName.find? fun q => q.1 == p.1).map (·.2))
+
+set_option maxRecDepth 100000 in
+/-- every opcode constant the reference knows has the reference's value in the working tree -/
+theorem values_eq : valuesOfReferenceNames = Spec.opcodesByName.map fun p => (p.1, some p.2) := by decide
 theorem disabled_eq : Generated.opcodeTables.disabled = Spec.disabledOpcodes := by decide
 theorem numeric_sets_eq : Generated.opcodeTables.unary = Spec.unaryNumOps ∧
     Generated.opcodeTables.binary = Spec.binaryNumOps := by decide
